@@ -14,7 +14,12 @@ Writes(r) == [j \in 1..Len(r.writes) |-> [addr |-> r.writes[j].addr, data |-> Da
 
 Clause(r) ==
     LET ws == Writes(r) IN
-    IF r.refused_at > 0
+    IF r.refused_at = 0 - 1
+    THEN \* end() raised (a writer may defer its work to the end): acceptable only if some block of the history
+         \* is one IPS cannot represent
+         IF \E j \in 1..Len(ws) : ~Representable(ws[j], RealK, r.header) \/ StartsAtMarker(ws[j], RealK, r.header)
+         THEN "ok" ELSE "closing the file failed although every block is representable"
+    ELSE IF r.refused_at > 0
     THEN \* the k-th write raised: acceptable only if IPS cannot represent that block
          LET w == ws[r.refused_at] IN
          \* (a block that merely covers the EOF address can be split around it, so it must be written)
